@@ -109,6 +109,7 @@ func pinOptAlphabet() []optVal {
 		{"expire-in", "1h", "1h"}, {"expire-in", "90s", "90s"}, {"expire-in", "abc", "not-a-duration"},
 		{"expire-in", "10", "no-unit"}, {"expire-in", "500ms", "sub-second"}, {"expire-in", "-1h", "negative"},
 		{"meta-foo", "bar", "plain"}, {"meta-k2", "v 2&x=y", "special-chars"}, {"meta-", "x", "empty-key"},
+		{"meta-team", "infra", "key-of-prefix-letters"}, {"meta-author", "alice", "key-starts-with-prefix-letter"}, {"meta-meta-x", "1", "key-repeats-prefix"},
 		{"pin-update", cidUpd.String(), "cid"}, {"pin-update", "notacid", "undecodable-cid"},
 		{"origins", origin1, "one"}, {"origins", origin1 + "," + origin2, "two"}, {"origins", "garbage", "undecodable"},
 		{"origins", "/ip4/1.2.3.4/tcp/1", "no-peer-id"}, {"origins", origin1 + ",garbage", "one+undecodable"},
